@@ -30,11 +30,14 @@ L_STATE = 'helper-side inference states of discarded Scripts are not released'
 L_LIVE = 'a live Script stops working after other Scripts were discarded'
 
 
-def digest(jedi, sc):
+def digest(jedi, sc, keep=None):
     """one query = new Script + API call + rendering; ('ok', answer) | ('exc', type name)"""
     code, kind, line, col = sc
     try:
-        res = getattr(jedi.Script(code), kind)(line, col)
+        script = jedi.Script(code)
+        if keep is not None:
+            keep.append(script)         # a client may hold on to its Script objects
+        res = getattr(script, kind)(line, col)
         if kind == 'complete':
             return 'ok', [[c.name, c.type] for c in res]
         if kind == 'infer':
@@ -142,7 +145,7 @@ class Worker:
         import jedi.inference.compiled.subprocess as sub
         jedi.settings.cache_directory = cache
         self.jedi, self.faults, self.out = jedi, Faults(sub), {'violations': [], 'evaluations': 0, 'samples': []}
-        self.main_thread, self.t0 = threading.get_ident(), time.time()
+        self.main_thread, self.t0, self.keep, self.keep_all = threading.get_ident(), time.time(), [], False
 
     def violation(self, label, inp, observed):
         self.out['violations'].append({'label': label, 'input': inp, 'observed': str(observed)[:600]})
@@ -182,7 +185,7 @@ class Worker:
         t = threading.Thread(target=watch, daemon=True)
         t.start()
         try:
-            res = digest(self.jedi, sc)
+            res = digest(self.jedi, sc, self.keep)
         finally:
             done.set()
             t.join()
@@ -196,6 +199,8 @@ class Worker:
         desc = 'scenario %r, faults (request index, phase, cut) = %r' % (sc, [(k, PHASES[p], c) for k, p, c in seq])
         self.out['evaluations'] += 1
         del self.faults.killed[:]
+        if not self.keep_all:
+            del self.keep[:]                # the Scripts of one sequence stay alive until the sequence was judged
         outcomes = []
         for fault in seq:
             (status, val), _ = self.query(sc, fault, desc)
@@ -244,6 +249,7 @@ class Worker:
     def job_cycles(self, bases, seed, tier):
         rng = random.Random(seed)
         ns = [self.warm(si, bases[si]) for si in range(len(SCENARIOS))]
+        self.keep_all = True                # every Script of the cycles stays alive up to the final accounting
         gc.collect()
         before = (len(os.listdir('/proc/self/fd')), threading.active_count())
         cycles = 60 if tier == 'thorough' else 20
